@@ -258,6 +258,10 @@ class Balancer:
         if len(t.args) < 2:
             log.debug("can't do anything with an unop bool")
             return None
+        if t.op not in Balancer.comparison_info and t.op not in {"__eq__", "__ne__"}:
+            # e.g. a conjunction that _unpack_truisms left whole: there is no comparison to balance
+            log.debug("can't do anything with a %s", t.op)
+            return False
         if t.args[0].cardinality > 1 and t.args[1].cardinality > 1:
             log.debug("can't do anything because we have multiple multivalued guys")
             return False
